@@ -199,6 +199,21 @@ fn handle(req: &Value) -> Value {
                 Err(e) => json!({"ok": false, "stage": "deposit", "err": errcode(&e), "capacity": cap.to_string(), "deposited": dep.to_string(), "bank": dump_bank(&bank)}),
             }
         }
+        "configure" => {
+            use marginfi_type_crate::types::{BankConfigOpt, BankOperationalState};
+            let mut bank = mk_bank(req.get("bank"));
+            let mut opt = BankConfigOpt::default();
+            if let Some(v) = req.get("operational_state") { opt.operational_state = Some(unsafe { std::mem::transmute::<u8, BankOperationalState>(i128v(v) as u8) }); }
+            if let Some(v) = req.get("deposit_limit") { opt.deposit_limit = Some(i128v(v) as u64); }
+            if let Some(v) = req.get("borrow_limit") { opt.borrow_limit = Some(i128v(v) as u64); }
+            if let Some(v) = req.get("freeze_settings") { opt.freeze_settings = Some(i128v(v) != 0); }
+            let frozen_path = req.get("unfrozen_fields_only").and_then(|v| v.as_bool()).unwrap_or(false);
+            let r = if frozen_path { bank.configure_unfrozen_fields_only(&opt) } else { bank.configure(&opt) };
+            match r {
+                Ok(_) => json!({"ok": true, "bank": dump_bank(&bank)}),
+                Err(e) => json!({"ok": false, "err": errcode(&e), "bank": dump_bank(&bank)}),
+            }
+        }
         "remaining_deposit_capacity" => {
             let bank = mk_bank(req.get("bank"));
             match bank.get_remaining_deposit_capacity() {
